@@ -27,6 +27,7 @@ Inductive endvar := EndHint | EndClientOnly | EndBare.             (* end_sessio
 
 Inductive flow :=
 | FAuthorize (c : client) (hint : bool)          (* GET /authorize [id_token_hint] *)
+| FAuthorizeUnregistered (c : client)            (* GET /authorize, redirect_uri not registered *)
 | FCallbackCode (c : client) (m : rmode)         (* /authorize/callback, response_type=code *)
 | FCallbackImplicit (c : client) (with_at : bool) (m : rmode)  (* id_token [token] *)
 | FTokenCode (c : client) (offline : bool)
@@ -43,13 +44,50 @@ Inductive flow :=
 | FKeys | FDiscovery | FReady.
 
 (* ---- answers ---- *)
+Definition code_str (c : ecode) : string :=
+  match c with
+  | EServerError => "server_error" | EInvalidRequest => "invalid_request"
+  | EInvalidClient => "invalid_client" | EAccessDenied => "access_denied"
+  end.
+(* oidc.DefaultToServerError: an *oidc.Error anywhere in the chain keeps its code *)
+Definition dcode (kd : kind) : ecode := match as_oidc kd with Some (c, _) => c | None => EServerError end.
+Definition is_server (c : ecode) : bool := match c with EServerError => true | _ => false end.
+
+(* the handler wraps the failure into a fixed error of its own (or writes a fixed answer) *)
 Definition errs (cls : rclass) (e : string) : kind -> prog := fun _ => Ret (R cls e []).
 Definition bad (e : string) := errs K4xx e.                 (* 400/401/403 + OAuth error *)
-Definition redirect_err (e : string) := errs K302Err e.     (* AuthRequestError / TryErrorRedirect *)
-(* an error that is not an oidc.Error becomes server_error:
-   RequestError (Provider router) always answers 4xx, WriteError (Legacy) 500 *)
+Definition redirect_err (e : string) := errs K302Err e.
+
+(* the failure is handed on as it is: *)
+(* RequestError (Provider router): 400, 401 for invalid_client *)
+Definition request_error : kind -> prog := fun kd => Ret (R K4xx (code_str (dcode kd)) []).
+(* WriteError (Legacy router), no StatusError: server_error => 500, else 400 *)
+Definition write_error : kind -> prog :=
+  fun kd => Ret (R (if is_server (dcode kd) then K5xx else K4xx) (code_str (dcode kd)) []).
+(* WriteError of a StatusError with a 5xx status *)
+Definition status_error_5xx : kind -> prog := fun kd => Ret (R K5xx (code_str (dcode kd)) []).
+Definition pass (r : router) : kind -> prog :=
+  match r with RProvider => request_error | RLegacy => write_error end.
+(* a server-side failure the handler cannot see through (flattened error text) *)
 Definition srv (r : router) : kind -> prog :=
   match r with RProvider => errs K4xx "server_error" | RLegacy => errs K5xx "server_error" end.
+(* AuthRequestError with an auth request whose redirect URI was validated: error redirect,
+   unless the error is marked redirect-disabled (then http.Error 400, plain text) *)
+Definition auth_error : kind -> prog :=
+  fun kd => match as_oidc kd with
+            | Some (_, true) => Ret (R K4xx "" [])
+            | _ => Ret (R K302Err (code_str (dcode kd)) [])
+            end.
+(* TryErrorRedirect + WriteError (Legacy): the same, the 400 is an OAuth error document *)
+Definition try_error_redirect : kind -> prog :=
+  fun kd => match as_oidc kd with
+            | Some (c, true) => Ret (R K4xx (code_str c) [])
+            | _ => Ret (R K302Err (code_str (dcode kd)) [])
+            end.
+(* httphelper.MarshalJSONWithStatus(w, err, status): only a bare *oidc.Error marshals to a
+   document with an error member *)
+Definition marshal_err (cls : rclass) : kind -> prog :=
+  fun kd => Ret (R cls (match as_oidc kd, k_wrapped kd with Some (c, _), false => code_str c | _, _ => "" end) []).
 Definition ok (cls : rclass) (cs : list cred) : prog := Ret (R cls "" cs).
 
 Definition opt (b : bool) (f : prog -> prog) (k : prog) : prog := if b then f k else k.
@@ -80,7 +118,7 @@ Definition token_creds (with_at refresh idt : bool) : list cred :=
 (* LegacyServer.VerifyClient (behind webServer.withClient) *)
 Definition legacy_verify_client (c : client) (k : prog) : prog :=
   match auth_of c with
-  | APkjwt => Call MGetKeyByIDAndClientID (srv RLegacy) (Call MGetClientByClientID (srv RLegacy) k)
+  | APkjwt => Call MGetKeyByIDAndClientID (srv RLegacy) (Call MGetClientByClientID write_error k)
   | ANone => Call MGetClientByClientID (bad "invalid_client") k
   | _ => Call MGetClientByClientID (bad "invalid_client") (Call MAuthorizeClientIDSecret (bad "invalid_client") k)
   end.
@@ -97,11 +135,19 @@ Definition h_authorize (r : router) (hint : bool) : prog :=
   | RProvider =>
       Call MGetClientByClientID (errs K4xx "")
         (opt hint (Call MKeySet (redirect_err "login_required"))
-           (Call MCreateAuthRequest (redirect_err "server_error") (ok K302 [])))
+           (Call MCreateAuthRequest auth_error (ok K302 [])))
   | RLegacy =>
-      Call MGetClientByClientID (errs K5xx "server_error")
+      Call MGetClientByClientID write_error
         (opt hint (Call MKeySet (bad "login_required"))
-           (Call MCreateAuthRequest (redirect_err "server_error") (ok K302 [])))
+           (Call MCreateAuthRequest try_error_redirect (ok K302 [])))
+  end.
+
+(* the same request with a redirect_uri that is not registered: rejected by
+   ValidateAuthReqRedirectURI right after the client lookup, without a redirect *)
+Definition h_authorize_unregistered (r : router) : prog :=
+  match r with
+  | RProvider => Call MGetClientByClientID (errs K4xx "") (Ret (R K4xx "" []))
+  | RLegacy => Call MGetClientByClientID write_error (Ret (R K4xx "invalid_request" []))
   end.
 
 Definition success_cls (m : rmode) : rclass := match m with MFormPost => KOk | _ => K302 end.
@@ -109,25 +155,25 @@ Definition success_cls (m : rmode) : rclass := match m with MFormPost => KOk | _
 (* AuthorizeCallback -> AuthResponse -> AuthResponseCode (same function on both routers) *)
 Definition h_callback_code (m : rmode) : prog :=
   Call MAuthRequestByID (errs K4xx "")
-    (Call MGetClientByClientID (redirect_err "server_error")
-       (Call MSaveAuthCode (redirect_err "server_error") (ok (success_cls m) [CCode]))).
+    (Call MGetClientByClientID auth_error
+       (Call MSaveAuthCode auth_error (ok (success_cls m) [CCode]))).
 
 (* AuthorizeCallback -> AuthResponse -> AuthResponseToken *)
 Definition h_callback_implicit (c : client) (with_at : bool) (m : rmode) : prog :=
   Call MAuthRequestByID (errs K4xx "")
-    (Call MGetClientByClientID (redirect_err "server_error")
-       (create_token_response (redirect_err "server_error") with_at false (jwt_at c) true
+    (Call MGetClientByClientID auth_error
+       (create_token_response auth_error with_at false (jwt_at c) true
           (ok (success_cls m) (token_creds with_at false true)))).
 
 (* CodeExchange + AuthorizeCodeClient / codeExchangeHandler + LegacyServer.CodeExchange *)
 Definition h_token_code (r : router) (c : client) (offline : bool) : prog :=
-  let tail := create_token_response (srv r) true offline (jwt_at c) true
+  let tail := create_token_response (pass r) true offline (jwt_at c) true
                 (ok KOk (token_creds true offline true)) in
   match r with
   | RProvider =>
       Call MAuthRequestByCode (bad "invalid_grant")
         (match auth_of c with
-        | APkjwt => Call MGetKeyByIDAndClientID (srv r) (Call MGetClientByClientID (srv r) tail)
+        | APkjwt => Call MGetKeyByIDAndClientID (srv r) (Call MGetClientByClientID (pass r) tail)
         | ANone => Call MGetClientByClientID (bad "invalid_client") tail
         | _ => Call MGetClientByClientID (bad "invalid_client")
                  (Call MAuthorizeClientIDSecret (bad "invalid_client") tail)
@@ -138,40 +184,40 @@ Definition h_token_code (r : router) (c : client) (offline : bool) : prog :=
 (* RefreshTokenExchange + AuthorizeRefreshClient / LegacyServer.RefreshToken *)
 Definition h_refresh (r : router) (c : client) : prog :=
   let tail := Call MTokenRequestByRefreshToken (bad "invalid_grant")
-                (create_token_response (srv r) true true (jwt_at c) false (ok KOk (token_creds true true true))) in
+                (create_token_response (pass r) true true (jwt_at c) false (ok KOk (token_creds true true true))) in
   match r with
   | RProvider =>
       match auth_of c with
-      | APkjwt => Call MGetKeyByIDAndClientID (srv r) (Call MGetClientByClientID (srv r) tail)
-      | ANone => Call MGetClientByClientID (srv r) tail
-      | _ => Call MGetClientByClientID (srv r) (Call MAuthorizeClientIDSecret (bad "invalid_client") tail)
+      | APkjwt => Call MGetKeyByIDAndClientID (srv r) (Call MGetClientByClientID (pass r) tail)
+      | ANone => Call MGetClientByClientID (pass r) tail
+      | _ => Call MGetClientByClientID (pass r) (Call MAuthorizeClientIDSecret (bad "invalid_client") tail)
       end
   | RLegacy => legacy_verify_client c tail
   end.
 
 (* ClientCredentialsExchange / VerifyClient (client_credentials branch) + LegacyServer.ClientCredentialsExchange *)
 Definition h_client_credentials (r : router) (c : client) : prog :=
-  Call MClientCredentials (match r with RProvider => bad "invalid_client" | RLegacy => srv r end)
-    (Call MClientCredentialsTokenRequest (srv r)
-       (create_access_token (srv r) false false (jwt_at c) (ok KOk [CAccess]))).
+  Call MClientCredentials (match r with RProvider => bad "invalid_client" | RLegacy => write_error end)
+    (Call MClientCredentialsTokenRequest (pass r)
+       (create_access_token (pass r) false false (jwt_at c) (ok KOk [CAccess]))).
 
 (* JWTProfile / LegacyServer.JWTProfile; CreateJWTTokenResponse issues an opaque token *)
 Definition h_jwt_bearer (r : router) : prog :=
   Call MGetKeyByIDAndClientID (match r with RProvider => srv r | RLegacy => bad "invalid_request" end)
-    (Call MValidateJWTProfileScopes (srv r)
-       (create_access_token (srv r) false false false (ok KOk [CAccess]))).
+    (Call MValidateJWTProfileScopes (pass r)
+       (create_access_token (pass r) false false false (ok KOk [CAccess]))).
 
 (* TokenExchange + ValidateTokenExchangeRequest / tokenExchangeHandler + LegacyServer.TokenExchange *)
 Definition h_token_exchange (r : router) (c : client) (s : subj) (w : want) : prog :=
   let response :=
     match w with
-    | WantAccess => create_access_token (srv r) false true (jwt_at c) (ok KOk [CAccess])
-    | WantRefresh => create_access_token (srv r) true true (jwt_at c) (ok KOk [CAccess; CRefresh])
-    | WantID => create_id_token (srv r) true (ok KOk [CAccess; CIDToken])  (* the ID token travels as access_token *)
+    | WantAccess => create_access_token (pass r) false true (jwt_at c) (ok KOk [CAccess])
+    | WantRefresh => create_access_token (pass r) true true (jwt_at c) (ok KOk [CAccess; CRefresh])
+    | WantID => create_id_token (pass r) true (ok KOk [CAccess; CIDToken])  (* the ID token travels as access_token *)
     end in
   let request :=   (* CreateTokenExchangeRequest: GetTokenIDAndSubjectFromToken, then the storage *)
     Call (match s with SubjRefresh => MTokenRequestByRefreshToken | _ => MKeySet end) (bad "invalid_request")
-      (Call MValidateTokenExchangeRequest (srv r) (Call MCreateTokenExchangeRequest (srv r) response)) in
+      (Call MValidateTokenExchangeRequest (pass r) (Call MCreateTokenExchangeRequest (pass r) response)) in
   match r with
   | RProvider => Call MAuthorizeClientIDSecret (bad "invalid_client") (Call MGetClientByClientID (bad "invalid_client") request)
   | RLegacy => Call MGetClientByClientID (bad "invalid_client") (Call MAuthorizeClientIDSecret (bad "invalid_client") request)
@@ -182,21 +228,22 @@ Definition h_device_auth (r : router) (c : client) : prog :=
   match r with
   | RProvider =>
       client_id_from_request c
-        (Call MGetClientByClientID (srv r) (Call MStoreDeviceAuthorization (srv r) (ok KOk [CDevice])))
-  | RLegacy => legacy_verify_client c (Call MStoreDeviceAuthorization (srv r) (ok KOk [CDevice]))
+        (Call MGetClientByClientID request_error (Call MStoreDeviceAuthorization request_error (ok KOk [CDevice])))
+  | RLegacy => legacy_verify_client c (Call MStoreDeviceAuthorization status_error_5xx (ok KOk [CDevice]))
   end.
 
-(* CheckDeviceAuthorizationState: context.DeadlineExceeded -> slow_down, any other error -> access_denied *)
+(* CheckDeviceAuthorizationState: errors.Is(err, context.DeadlineExceeded) -> slow_down,
+   any other error -> access_denied *)
 Definition device_err (kd : kind) : resp :=
-  R K4xx (match kd with KDeadline => "slow_down" | KError => "access_denied" end) [].
+  R K4xx (if is_deadline kd then "slow_down" else "access_denied") [].
 
 (* deviceAccessToken / deviceTokenHandler + LegacyServer.DeviceToken; CreateDeviceTokenResponse *)
 Definition h_device_token (r : router) (c : client) (offline openid : bool) : prog :=
-  let response := create_access_token (srv r) offline false (jwt_at c)
-                    (opt openid (create_id_token (srv r) false) (ok KOk (token_creds true offline openid))) in
+  let response := create_access_token (pass r) offline false (jwt_at c)
+                    (opt openid (create_id_token (pass r) false) (ok KOk (token_creds true offline openid))) in
   let poll := Call MGetDeviceAuthorizatonState (fun kd => Ret (device_err kd)) in
   match r with
-  | RProvider => client_id_from_request c (poll (Call MGetClientByClientID (srv r) response))
+  | RProvider => client_id_from_request c (poll (Call MGetClientByClientID (pass r) response))
   | RLegacy => legacy_verify_client c (poll response)
   end.
 
@@ -206,10 +253,10 @@ Definition h_userinfo (r : router) (c : client) : prog :=
   match r with
   | RProvider =>
       opt (jwt_at c) (Call MKeySet (errs K4xx ""))
-        (Call MSetUserinfoFromToken (errs K4xx "") (ok KOk [CClaims]))
+        (Call MSetUserinfoFromToken (marshal_err K4xx) (ok KOk [CClaims]))
   | RLegacy =>
       opt (jwt_at c) (Call MKeySet (bad "access_denied"))
-        (Call MSetUserinfoFromToken (bad "server_error") (ok KOk [CClaims]))
+        (Call MSetUserinfoFromToken request_error (ok KOk [CClaims]))  (* StatusError 403 + WriteError *)
   end.
 
 (* Introspect / introspectionHandler + LegacyServer.Introspect *)
@@ -229,9 +276,12 @@ Definition h_revoke (r : router) (c : client) (t : revtok) (hint : bool) : prog 
     | RevAccess => if jwt_at c then Call MKeySet (fun _ => revoke) revoke else revoke
     | RevRefresh => revoke
     end in
+  (* GetRefreshTokenInfo: ErrInvalidRefreshToken is the documented "not a refresh token" answer,
+     the handler carries on with the access-token path; anything else is a server_error *)
+  let lookup k :=
+    Call MGetRefreshTokenInfo (fun kd => if is_invalid_refresh kd then decrypt else Ret (R K5xx "server_error" [])) k in
   let body :=
-    opt (match t with RevRefresh => true | RevAccess => negb hint end)
-      (Call MGetRefreshTokenInfo (errs K5xx "server_error")) decrypt in
+    opt (match t with RevRefresh => true | RevAccess => negb hint end) lookup decrypt in
   match r with
   | RProvider =>
       match auth_of c with
@@ -245,8 +295,8 @@ Definition h_revoke (r : router) (c : client) (t : revtok) (hint : bool) : prog 
 
 (* EndSession + ValidateEndSessionRequest / LegacyServer.EndSession *)
 Definition h_end_session (r : router) (v : endvar) : prog :=
-  let terminate := Call MTerminateSession (srv r) (ok K302 []) in
-  let client := Call MGetClientByClientID (srv r) terminate in
+  let terminate := Call MTerminateSession (pass r) (ok K302 []) in
+  let client := Call MGetClientByClientID (pass r) terminate in
   match v with
   | EndHint => Call MKeySet (bad "invalid_request") client
   | EndClientOnly => client
@@ -255,7 +305,7 @@ Definition h_end_session (r : router) (v : endvar) : prog :=
 
 (* Keys / LegacyServer.Keys *)
 Definition h_keys (r : router) : prog :=
-  Call MKeySet (match r with RProvider => errs K5xx "" | RLegacy => errs K5xx "server_error" end) (ok KOk []).
+  Call MKeySet (match r with RProvider => marshal_err K5xx | RLegacy => status_error_5xx end) (ok KOk []).
 
 (* Discover + SigAlgorithms: a failing SignatureAlgorithms is swallowed (F24) *)
 Definition h_discovery : prog :=
@@ -263,11 +313,12 @@ Definition h_discovery : prog :=
 
 (* Readiness / LegacyServer.Ready *)
 Definition h_ready (r : router) : prog :=
-  Call MHealth (match r with RProvider => errs K5xx "" | RLegacy => errs K5xx "server_error" end) (ok KOk []).
+  Call MHealth (match r with RProvider => errs K5xx "" | RLegacy => status_error_5xx end) (ok KOk []).
 
 Definition handler (r : router) (f : flow) : prog :=
   match f with
   | FAuthorize _ hint => h_authorize r hint
+  | FAuthorizeUnregistered _ => h_authorize_unregistered r
   | FCallbackCode _ m => h_callback_code m
   | FCallbackImplicit c a m => h_callback_implicit c a m
   | FTokenCode c o => h_token_code r c o
@@ -297,13 +348,18 @@ Definition wf_flow (f : flow) : bool :=
 
 (* open findings: a failure of this storage method in this flow is answered 200
    (recorded in known_findings.d/C10.txt) *)
-Definition excused (f : flow) (m : method) : bool :=
+Definition open_pair (f : flow) (m : method) : bool :=
   match f, m with
   | FDiscovery, MSignatureAlgorithms => true                (* F24 *)
   | FRevoke _ RevAccess _, MKeySet => true                  (* Fxx-C10-1 *)
   | _, _ => false
   end.
 
-(* the one handler that goes on calling the storage after a failure *)
-Definition revokes_jwt (f : flow) : bool :=
-  match f with FRevoke c RevAccess _ => jwt_at c | _ => false end.
+(* the handlers that go on calling the storage after some failure (revocation: KeySet,
+   and GetRefreshTokenInfo answering ErrInvalidRefreshToken) *)
+Definition goes_on (f : flow) : bool :=
+  match f with
+  | FRevoke c RevAccess hint => jwt_at c || negb hint
+  | FRevoke _ RevRefresh _ => true
+  | _ => false
+  end.
